@@ -135,6 +135,15 @@ def gen_rounds(seed, tier, run):
             es[0] = es[-1]
             lanes.append(f"unique {arr(sh, es)} z{ax}")
     run(lanes)
+    # arrays with a zero-length axis (the property's quantifier names empty arrays) through every modelled call
+    empties = []
+    for sh in ([0], [2, 0], [0, 3], [2, 0, 3], [0, 0], [1, 0, 2, 2], [3, 1, 0]):
+        for _ in range(150 if tier == "quick" else 1500):
+            ty = rng.choice(["i32", "i64", "str"])
+            call = opspec.rand_call(rng, sh, ty, 0)
+            name, _, rest = call.partition(" ")
+            empties.append(f"{name}@{ty} " + rest.replace("{a}", arr(sh)))
+    run(sorted(set(empties)))
     # surface sweep
     per = 250 if tier == "quick" else 3000
     sweep = []
